@@ -30,10 +30,10 @@ ASSUMPTIONS = ["tokio select!: a ready branch wins, the other future is dropped 
 TRUSTED = ["modelled not verified: tokio select!/mpsc/Notify semantics, the glue between layers (Ok items forwarded, errors leave the chain)",
            "trace instrumentation lives in the harness-defined processors / source / glue closures (the anchored code is unmodified, no hook needed)"]
 RULE = ("random streams of 1..3 layers (single or two composed processors per Buffer; FIFO / reverse-groups-of-k; process and next failures; "
-        "per-item process delays, next delays, arrival gaps, consumer pauses all counted in yield_now) over 1..12 (quick) / 1..30 (thorough) "
-        "distinct inputs; quick 360 random + 40 directed, thorough 4000 + 200; non-trivial = at least two inputs entered before the first "
+        "per-item process delays, next delays, arrival gaps, consumer pauses all counted in yield_now) over 1..8 (quick) / 1..20 (thorough) "
+        "distinct inputs; quick 170 random + 33 directed, thorough 1500 + 66; non-trivial = at least two inputs entered before the first "
         "output left, or an item was dropped, or a failure output occurred")
-COQ_SHARD = 120
+COQ_SHARD = 40
 NONTRIVIAL_FLOOR = 20
 
 
@@ -86,7 +86,7 @@ def _p(tag, pdel, grp=1, nd=0, perrs=(), nerrs=()):
 
 def _directed(tier):
     out = []
-    ns = [2, 6, 20] if tier == "quick" else [2, 3, 6, 12, 20, 30]
+    ns = [2, 5, 12] if tier == "quick" else [2, 3, 6, 12, 20, 30]
     for n in ns:
         xs = list(range(1, n + 1))
         for d2 in (0, 1, 2):
@@ -103,7 +103,7 @@ def _directed(tier):
 def gen(tier, rng):
     for c in _directed(tier):
         yield c
-    nrand, maxn = (360, 12) if tier == "quick" else (4000, 30)
+    nrand, maxn = (170, 8) if tier == "quick" else (1500, 20)
     for i in range(nrand):
         yield _case(rng, maxn, force="C" if i % 5 == 0 else None)
 
